@@ -4,7 +4,7 @@
    that the theorems also read "for any element converter whose passes agree". *)
 From Coq Require Import ZArith List Bool String.
 Require Import Base.Outcome Model.Values Model.Vocab Model.Types Model.Expected Model.Conv.
-Require Import Lemmas.AgreeLemmas Lemmas.AgreeThm Lemmas.TreeLemmas.
+Require Import Gen.GenGates Lemmas.AgreeLemmas Lemmas.AgreeThm Lemmas.TreeLemmas.
 Import ListNotations.
 
 (* homogeneous sequences: children = exactly the positions rejected on their own,
@@ -44,3 +44,22 @@ Theorem C07_leaf_records_value : forall t v e a c i,
   ce t v = CTree (EWrongType e a c i) -> a = v.
 Proof. exact leaf_records_value. Qed.
 Print Assumptions C07_leaf_records_value.
+(* dataclasses read from a mapping: extra = exactly the keys that bind to no field (none when
+   allow_extra), in the order of the data; missing = exactly the required fields that no key binds
+   to, in declaration order; the node records v *)
+Theorem C07_dataclass_missing_extra : forall h fs v exp ch act mi ex,
+  pane_seq_gate_collect (kind_of v) = false ->
+  ce (TClass h fs) v = CTree (EProduct exp ch act mi ex) ->
+  ex = class_extra_spec fs (c_allow_extra h) (pairs_of v) /\ mi = class_missing_spec fs (pairs_of v) /\ act = v.
+Proof. exact class_missing_extra. Qed.
+Print Assumptions C07_dataclass_missing_extra.
+(* non-vacuity: P(a: int, b: int = 0, c: str) read from {'a': 'x', 'zz': 1}: child a, extra zz, missing c *)
+Open Scope string_scope.
+Example C07_dataclass_example :
+  let P := TClass (mkCls "P" [FStruct; FTuple] false false HNone)
+             [(mkFld "a" ["a"] "a" true false false DNone, TScalar SInt);
+              (mkFld "b" ["b"] "b" true false false (DValue (VInt 0)), TScalar SInt);
+              (mkFld "c" ["c"] "c" true false false DNone, TScalar SStr)] in
+  exists exp ch, ce P (VDict [(VStr "a", VStr "x"); (VStr "zz", VInt 1)]) =
+                 CTree (EProduct exp ch (VDict [(VStr "a", VStr "x"); (VStr "zz", VInt 1)]) ["c"] [VStr "zz"]) /\ List.length ch = 1%nat.
+Proof. vm_compute. eexists. eexists. split; reflexivity. Qed.
